@@ -39,3 +39,37 @@ for fn, nm, real in ((1, 'set_field', '_dbus_header_set_field_basic'), (2, 'dele
                                            'success: reserve -> edit -> correct -> invalidate, each once per edit, in this order; failure: padding corrected (never left in the editing state), nothing moved if reserve failed'))] + EDIT_FUNCS,
                  assumptions=EDIT_ASSUME)
         UNITS.append(u)
+
+# ---- small primitives: real code, loop-free, header byte string of symbolic size ------------------------------
+SIG = 'dbus/dbus-signature.c'
+BASIC_TUS = [dict(file=HDR, include_as='VERIF_TU'), dict(file=STR), dict(file=BASIC), dict(file=SIG)]
+PAD_STUBS = {'_dbus_string_lengthen': 'verif_stub_string_lengthen', '_dbus_string_shorten': 'verif_stub_string_shorten',
+             '_dbus_string_align_length': 'verif_stub_string_align_length', '_dbus_string_get_length': 'verif_stub_string_get_length'}
+STR_ASSUME = 'DBusString length primitives follow their documented behaviour (stubs): lengthen may fail and then changes nothing, new bytes uninitialised; shorten keeps the allocation; align_length appends NUL bytes and cannot fail within the allocation'
+for fn, nm, enforced, must, stubs, contract in (
+        (1, 'flags', '_dbus_header_toggle_flag/_dbus_header_get_flag', ['flag.byte2', 'flag.frame', 'flag.readback', 'flag.others'], {},
+         'only byte 2 changes, only the bits of the flag; the flag reads back; other flags keep their value'),
+        (2, 'serial', '_dbus_header_set_serial/_dbus_header_get_serial', ['serial.readback', 'serial.order', 'serial.frame'], {},
+         'only bytes 8..11 change; they are the serial in the byte order of byte 0; it reads back; all 2^32 values, both orders'),
+        (3, 'lengths', '_dbus_header_update_lengths', ['lengths.body', 'lengths.frame'], {}, 'only bytes 4..7 change; they are the body length in the byte order of byte 0'),
+        (4, 'cache.check', '_dbus_header_cache_check', ['cache.check'], {'_dbus_header_cache_revalidate': 'verif_stub_cache_revalidate'},
+         'rebuilds the cache iff the entry is UNKNOWN; TRUE iff the field exists; known entries answered without touching the cache'),
+        (5, 'padding.reserve', 'reserve_header_padding', ['reserve:', 'reserve.frame'], PAD_STUBS,
+         'TRUE => padding == 7, length grown by 7 - old padding, allocation covers it; FALSE => nothing changed; existing bytes unchanged'),
+        (6, 'padding.correct', 'correct_header_padding', ['correct:', 'correct.frame'], PAD_STUBS,
+         'afterwards length % 8 == 0, padding <= 7 = minimum, every padding byte NUL, bytes before the padding unchanged; cannot fail (its assert_not_reached is unreachable)'),
+        (7, 'getters', '_dbus_header_get_message_type/_dbus_header_get_byte_order', ['type.get', 'order.get'], {}, 'byte 1 / byte 0')):
+    UNITS.append(dict(name='C12.' + nm, props=['C12', 'C02'] if fn in (2, 3, 6) else ['C12'], kind='P', route='stub' if stubs else 'plain', tus=BASIC_TUS,
+                      harness='harness/c12_basic.c', extra_sources=[ASSERT], defines=['VERIF_FN=%d' % fn], replace_calls=stubs,
+                      timeout=600, expect_s=20, must_have=must,
+                      functions=[dict(name=enforced, file=HDR, status='enforced', contract=contract),
+                                 dict(name='_dbus_marshal_set_uint32/_dbus_marshal_read_uint32/pack_4_octets/_dbus_string_get_udata_len/_dbus_string_get_byte', file=BASIC, status='inlined', note='real code, loop-free')] +
+                                ([dict(name='_dbus_string_lengthen/_shorten/_align_length', file=STR, status='stub', note='documented behaviour; allocation tracked so that "cannot fail within the allocation" is checked, not assumed')] if stubs is PAD_STUBS else []) +
+                                ([dict(name='_dbus_header_cache_revalidate', file=HDR, status='stub', note='afterwards no entry is UNKNOWN; positions checked in C12.cache.revalidate.* (B)')] if fn == 4 else []),
+                      assumptions=[STR_ASSUME] if stubs is PAD_STUBS else []))
+
+UNITS.append(dict(name='C12.cache.invalidate', props=['C12'], kind='P', route='dfcc', enforce=['_dbus_header_cache_invalidate_all'],
+                  tus=[dict(file=HDR, include_as='VERIF_TU', overlay='c12_cache.ovl')], harness='harness/c12_invalidate.c', extra_sources=[ASSERT],
+                  timeout=600, expect_s=10, must_have=['Check invariant after step for loop _dbus_header_cache_invalidate_all', 'Check ensures clause of contract'],
+                  functions=[dict(name='_dbus_header_cache_invalidate_all', file=HDR, status='enforced', contract='every cache entry UNKNOWN afterwards (ghost index); writes only the fields array; terminates')],
+                  assumptions=[]))
